@@ -58,6 +58,14 @@ CHECKS.update({
             "additionally explored under all <= K drops/duplications of individual datagrams.",
             TB + "mcv/refpeer.RefBlockServer is the RFC 7959 oracle. Bodies <= 4096 bytes.",
             "DESIGN.md 6/C05"),
+    "C07": ("model_checking", E1 + " (RFC 7641 s.3.4 verbatim)",
+            "A scripted notifier feeds the real client (plain Request path and default BlockwiseRequest path) every sequence up to length 3 "
+            "(quick) / 4 (thorough) over 33 items (Observe deltas around 0, +-1, +-2, +-2^23; inter-arrival 0/128/128.1 s), all ordered pairs "
+            "over the full 88-item alphabet incl. NON and 127.9 s, duplicates, and terminators (2.05 without Observe, 4.04, ICMP error, first "
+            "response without Observe) at every position followed by later arrivals. Callback stream == model's accepted sequence; iterator "
+            "stream a subsequence ending with the last; exactly one termination signal of the right kind; ACK while observing / RST after the end.",
+            TB + "Clock seam shared by model and library.",
+            "DESIGN.md 6/C07"),
     "C09": ("model_checking", E1 + "; differential isolation runs",
             "On the real UDP server stack every handler outcome (returns with/without code and payload, every "
             "ConstructionRenderableError subclass with/without text, foreign exceptions incl. ones that merely quack like renderable "
